@@ -36,17 +36,24 @@ pub fn fix_fn_param_idents(sig: &mut syn::Signature) {
 fn fix_ident_conflicts(sig: &mut syn::Signature) -> ParamStatus {
     let mut status = ParamStatus::Ok;
     let fn_ident_string = sig.ident.to_string();
-    let taken_idents: HashSet<String> = sig
-        .inputs
-        .iter()
-        .filter_map(|fn_arg| match fn_arg {
-            syn::FnArg::Typed(pat_type) => match pat_type.pat.as_ref() {
-                syn::Pat::Ident(pat_ident) => Some(pat_ident.ident.to_string()),
-                _ => None,
-            },
-            syn::FnArg::Receiver(_) => None,
-        })
-        .collect();
+    // Every binding counts as taken, also the ones inside patterns:
+    // they may be lifted out to become parameter names later.
+    struct BindingCollector(HashSet<String>);
+
+    impl syn::visit_mut::VisitMut for BindingCollector {
+        fn visit_pat_ident_mut(&mut self, i: &mut syn::PatIdent) {
+            self.0.insert(i.ident.to_string());
+            syn::visit_mut::visit_pat_ident_mut(self, i);
+        }
+    }
+
+    let mut collector = BindingCollector(HashSet::new());
+    for fn_arg in sig.inputs.iter_mut() {
+        if let syn::FnArg::Typed(pat_type) = fn_arg {
+            collector.visit_pat_mut(pat_type.pat.as_mut());
+        }
+    }
+    let taken_idents = collector.0;
 
     for fn_arg in sig.inputs.iter_mut() {
         let arg_status = match fn_arg {
